@@ -60,6 +60,15 @@ def guard_edges(body, leaf_pred, truth=True):
 
 
 def guard_edges_multi(body, specs):
+    """CFG edges on which at least one of the (leaf_pred, truth) specs is known to hold — interprocedural (see
+    guard_edges_ip) whenever the body belongs to a Program, so that moving a check into a helper does not hide it."""
+    prog = getattr(body, "prog", None)
+    if prog is not None:
+        return guard_edges_ip(prog, body, specs)
+    return _guard_edges_local(body, specs)
+
+
+def _guard_edges_local(body, specs):
     """CFG edges on which at least one of the (leaf_pred, truth) specs is known to hold.
     Handles negation wrappers, `Try::branch` (Continue arm = success when truth=True), and
     booleans materialised by `&&` / `||` (a bool local assigned in several blocks and switched
@@ -454,7 +463,7 @@ def _returns_guard_value(body, specs):
 
 def callee_ensures(prog, h, specs, depth=2):
     """every success return (true/Some/Ok) of function h is dominated by one of the guards"""
-    hb = prog.bodies.get(h)
+    hb = prog.bodies.get(h) or getattr(prog, "hidden", {}).get(h)
     if hb is None or depth < 0:
         return False
     if _returns_guard_value(hb, specs):
@@ -476,7 +485,7 @@ def _expr_ensures(prog, body, e, specs, depth):
     if e[0] != "call":
         return False
     d = e[1]
-    if d in prog.bodies:
+    if d in prog.bodies or d in getattr(prog, "hidden", {}):
         return callee_ensures(prog, d, specs, depth)
     last = d.rsplit("::", 1)[-1]
     if last in ("filter", "and_then", "take_if") and "option::Option" in d and len(e[2]) >= 2:
@@ -514,7 +523,7 @@ def guard_edges_ip(prog, body, specs, depth=2):
     """guard_edges_multi plus: an edge on which a helper call returned true/Some/Ok counts when
     every success return of the helper (or of the closure given to Option::filter) is itself
     dominated by the guard — so moving a check into a helper does not hide it"""
-    out = list(guard_edges_multi(body, specs))
+    out = list(_guard_edges_local(body, specs))
     if depth < 0:
         return out
     for bi, e, targets, otherwise in body.switch_edges():
@@ -531,7 +540,7 @@ def guard_edges_ip(prog, body, specs, depth=2):
                 is_result = False
                 ie = inner[1] if inner[0] == "deref" else inner
                 if ie[0] == "call":
-                    hb = prog.bodies.get(ie[1])
+                    hb = prog.bodies.get(ie[1]) or getattr(prog, "hidden", {}).get(ie[1])
                     if hb is not None:
                         is_result = hb.local_ty(0).startswith("core::result::Result")
                 want = 0 if is_result else 1
